@@ -38,6 +38,9 @@ func init() {
 
 const stepTimeout = 3 * time.Second
 
+// rawseq value that marks a Go call issued with an already expired context deadline
+const expiredCtxMark = 999999
+
 // ---------------- scripted transport ----------------
 type writeReq struct {
 	seq   uint64
@@ -53,6 +56,7 @@ type simConn struct {
 	buf     []byte
 	closed  bool
 	closeCh chan struct{}
+	wdl     time.Time // write deadline set on the connection (honoured like a real transport does)
 }
 
 func newSimConn() *simConn {
@@ -67,6 +71,12 @@ func (c *simConn) Write(b []byte) (int, error) {
 	c.writes <- req
 	if err := <-req.reply; err != nil {
 		return 0, err
+	}
+	c.mu.Lock()
+	dl := c.wdl
+	c.mu.Unlock()
+	if !dl.IsZero() && time.Now().After(dl) {
+		return 0, errors.New("vsim: write failed: i/o timeout (the connection's write deadline has passed)")
 	}
 	return len(b), nil
 }
@@ -109,9 +119,14 @@ func (simAddr) String() string  { return "vsim-peer" }
 
 func (c *simConn) LocalAddr() net.Addr                { return simAddr{} }
 func (c *simConn) RemoteAddr() net.Addr               { return simAddr{} }
-func (c *simConn) SetDeadline(t time.Time) error      { return nil }
-func (c *simConn) SetReadDeadline(t time.Time) error  { return nil }
-func (c *simConn) SetWriteDeadline(t time.Time) error { return nil }
+func (c *simConn) SetDeadline(t time.Time) error     { return c.SetWriteDeadline(t) }
+func (c *simConn) SetReadDeadline(t time.Time) error { return nil }
+func (c *simConn) SetWriteDeadline(t time.Time) error {
+	c.mu.Lock()
+	c.wdl = t
+	c.mu.Unlock()
+	return nil
+}
 
 var (
 	simMu    sync.Mutex
@@ -251,6 +266,7 @@ type callRT struct {
 	seq     int64 // registered seq (-1 unknown)
 	phase   string
 	ctxDone bool // the harness ended this call's own context
+	wroteOK bool // the transport accepted this call's frame
 }
 
 type rig struct {
@@ -379,6 +395,11 @@ func (r *rig) start(id string, i int) {
 	hookRigs[method] = rt
 	hookRigsMu.Unlock()
 	ctx, cancel := context.WithCancel(context.Background())
+	if rt.spec.kind == 'G' && rt.spec.rawseq == expiredCtxMark {
+		// a Go call whose context carries a deadline that has already passed: Go does not look at the context,
+		// so the call behaves like any other - and nothing about it may leak into the shared connection
+		ctx, cancel = context.WithDeadline(context.Background(), time.Now().Add(-time.Hour))
+	}
 	rt.cancel = cancel
 	var arg interface{} = rt.arg
 	var replyPtr interface{} = &rt.reply
@@ -653,6 +674,7 @@ func (r *rig) exec1(id string, e csmEvent) (bool, error) {
 		}
 		r.modelEvs = append(r.modelEvs, e.enc())
 		if e.op == "wok" {
+			rt.wroteOK = true
 			rt.wr.reply <- nil
 		} else {
 			rt.wr.reply <- errWriteFail
@@ -939,6 +961,9 @@ func csmRunOne(o *common.Out, id string, calls []csmCall, evs []csmEvent, finish
 		if i < len(r.calls) && strings.HasSuffix(f, "ctx") && !r.calls[i].ctxDone {
 			r.fail("foreign-ctx-error", fmt.Sprintf("call %d completed with a context error although its own context never ended", i))
 		}
+		if i < len(r.calls) && strings.HasSuffix(f, "write") && r.calls[i].wroteOK {
+			r.fail("foreign-write-failure", fmt.Sprintf("call %d failed with a write error although the transport accepted its frame (state left on the shared connection by another call)", i))
+		}
 	}
 	// model input: the calls and the events that actually ran
 	var cs []string
@@ -1003,6 +1028,9 @@ func genSchedule(prop string, r *common.Rand) ([]csmCall, []csmEvent) {
 		c := csmCall{kind: k, oneway: r.Chance(12)}
 		if k == 'R' {
 			c.rawseq = uint64(1000 + i)
+		}
+		if k == 'G' && r.Chance(15) {
+			c.rawseq = expiredCtxMark
 		}
 		calls = append(calls, c)
 	}
@@ -1193,7 +1221,7 @@ func runCSM(prop string, r *common.Rand, tier string, o *common.Out, replay stri
 	}
 	if prop == "C06" {
 		// exhaustive: victim first / later x aggressor behaviour x order of the aggressor's step and the victim's response
-		aggr := []string{"ctx-before-reg", "ctx-after-reg", "ctx-after-write", "encfail", "mistyped", "oneway", "svcerr", "unknown-codec", "wfail"}
+		aggr := []string{"ctx-before-reg", "ctx-after-reg", "ctx-after-write", "encfail", "mistyped", "oneway", "svcerr", "unknown-codec", "wfail", "expired-deadline"}
 		for _, victimFirst := range []bool{true, false} {
 			for _, a := range aggr {
 				for order := 0; order < 3; order++ {
@@ -1205,6 +1233,15 @@ func runCSM(prop string, r *common.Rand, tier string, o *common.Out, replay stri
 					}
 					if a == "oneway" {
 						calls[ag].oneway = true
+					}
+					if a == "expired-deadline" {
+						// the aggressor is a Go call whose context deadline has passed; the victim is the blocking Call
+						calls = []csmCall{{kind: 'C'}, {kind: 'G', rawseq: expiredCtxMark}}
+						v, ag = 0, 1
+						if !victimFirst {
+							calls = []csmCall{{kind: 'G', rawseq: expiredCtxMark}, {kind: 'C'}}
+							v, ag = 1, 0
+						}
 					}
 					var evs []csmEvent
 					vreg := []csmEvent{{op: "reg", c: v}, {op: "encok", c: v}, {op: "wok", c: v}}
